@@ -738,7 +738,8 @@ def run_layer(jobs, src_dir, tier="quick", seed=0, workers=10, only=None, extra=
     """Run-time contract check of every Cython kernel job with a postcondition.  -> list of run_rtc results"""
     from concurrent.futures import ProcessPoolExecutor
     sel = [j for j in jobs if ((j.lang == "cy" and (j.contract.ensures or getattr(j, "only_kinds", None))) or
-                               (j.lang == "py" and getattr(j.contract, "vectors", False) and j.contract.ensures))
+                               (j.lang == "py" and (getattr(j.contract, "vectors", False) or getattr(j.contract, "rtc_py", False))
+                                and j.contract.ensures))
            and (only is None or j.tag in only)]
     if not sel:
         return []
@@ -762,8 +763,18 @@ C = getattr(M, cls)
 F = getattr(C, meth)
 cases = pickle.load(open(inp_path, "rb"))
 res = []
+class _Bare(C):
+    """bare instance: attributes the region does not model get harmless defaults"""
+    def __getattr__(self, name):
+        if name == "silence_level":
+            return 3
+        if name.startswith("_mut_"):
+            return 0
+        raise AttributeError(name)
+
+
 for inp, stubs, bind in cases:
-    obj = C.__new__(C)
+    obj = C.__new__(_Bare)
     for k, v in inp.items():
         if k.startswith("self."):
             object.__setattr__(obj, k[5:], copy.deepcopy(v))
